@@ -718,7 +718,9 @@ func (u *Upstream) resume(newConn *wire.ClientConn) error {
 
 	ch, err := newConn.SubscribeUpstreamChunkAck(u.ctx, resp.AssignedStreamIDAlias)
 	if err != nil {
-		return errors.Errorf("failed to SubscribeUpstreamChunkAck: %w", err)
+		err = errors.Errorf("failed to SubscribeUpstreamChunkAck: %w", err)
+		u.closeWithError(u.ctx, err)
+		return err
 	}
 
 	u.mu.Lock()
